@@ -33,14 +33,17 @@ def angle_kind(e, defs, depth=4):
             return "el"
         if nm in ("wrapAngle2Pi",) and e.args:
             return angle_kind(e.args[0], defs, depth - 1) or "az"
+        if nm in WRAP_NEG_PI_PI and e.args:
+            # wrapping each operand separately does not wrap their difference
+            return angle_kind(e.args[0], defs, depth - 1)
     if isinstance(e, ast.Name) and e.id in defs:
         return angle_kind(defs[e.id], defs, depth - 1)
     return None
 
 
-def rule_r1(chk, p, t):
+def rule_r1(chk, p, t, rid="C14.R1"):
     r = chk.rule(
-        "C14.R1",
+        rid,
         "wrap discipline of azimuth differences",
         1,
         "a difference of two azimuths (each in [0, 2pi)) that is compared with a width passes through a wrap to "
@@ -334,9 +337,9 @@ def rule_r3(chk, p, t):
     r.guard("helper-angles", angles)
 
 
-def rule_r4(chk, p, t):
+def rule_r4(chk, p, t, rid="C14.R4"):
     r = chk.rule(
-        "C14.R4",
+        rid,
         "field-of-view tests",
         3,
         "the conic test is subtendedAngle(target, boresight) <= cone/2 (a function of the angular offset only); the "
